@@ -124,6 +124,8 @@ def _shards(tier):
         out.append({"nrel": 1, "kinds": [k], "end1": NAMES[0], "relations_first": True})
         out.append({"nrel": 1, "kinds": [k], "end1": NAMES[3], "relations_first": True})
     pairs = [(a, b) for a in REL_KINDS for b in REL_KINDS if a <= b]
+    if tier == "quick":
+        pairs = pairs[::3]   # 40 of the 120 unordered pairs (every kind occurs); all of them in the thorough tier
     for a, b in pairs:
         for e in (NAMES[0], NAMES[1], NAMES[3]):
             out.append({"nrel": 2, "kinds": [a, b], "end1": e})
@@ -137,7 +139,7 @@ OBLIGATIONS = [
                desc="prov_to_graph: nodes = element records of unified() + one inferred node per undeclared endpoint; one edge per two-ended relation, first -> second argument, carrying "
                     "the relation; graph_to_prov(g) = unified elements + those relations (strict multiset). Declared/undeclared endpoints, self loops, parallel relations, one-ended "
                     "relations, repeated identifiers, two element kinds under one identifier",
-               bounds="3-5 elements, 0-2 relations: each of the 15 relation kinds alone and all 120 unordered kind pairs; endpoints from 5 names (2 undeclared), every combination; "
+               bounds="3-5 elements, 0-2 relations: each of the 15 relation kinds alone and 40 (quick) / all 120 (thorough) unordered kind pairs; endpoints from 5 names (2 undeclared), every combination; "
                       "relations before / after the element declarations; two relations under one identifier",
                assumptions=["influence relations with an undeclared endpoint are skipped (documented by the converter)", "bundle-free documents",
                             "names are concrete (chosen by the solver from a catalogue): networkx hashes its nodes"],
